@@ -711,7 +711,38 @@ fn infer_schema_from_updates(updates: &[Update]) -> TupleSchema {
         .values()
         .iter()
         .enumerate()
-        .map(|(i, v)| (format!("col{i}"), v.data_type()))
+        .map(|(i, v)| {
+            // The first update decides the column type. For vectors that type carries the
+            // first vector's length, but a schema-less relation may hold vectors of any
+            // length: keep the fixed dimension only if every vector of the column has it,
+            // otherwise use a variable-length list (a fixed-size list built from vectors
+            // of other lengths is not a valid Arrow array, and the batch could never be
+            // written - not even by the startup flush of the WAL).
+            let dt = match v.data_type() {
+                DataType::Vector { dim: Some(d) }
+                    if !updates.iter().all(|u| {
+                        u.data
+                            .get(i)
+                            .and_then(|x| x.as_vector())
+                            .is_none_or(|x| x.len() == d)
+                    }) =>
+                {
+                    DataType::vector_any()
+                }
+                DataType::VectorInt8 { dim: Some(d) }
+                    if !updates.iter().all(|u| {
+                        u.data
+                            .get(i)
+                            .and_then(|x| x.as_vector_int8())
+                            .is_none_or(|x| x.len() == d)
+                    }) =>
+                {
+                    DataType::vector_int8_any()
+                }
+                other => other,
+            };
+            (format!("col{i}"), dt)
+        })
         .collect();
 
     TupleSchema::new(fields)
@@ -949,6 +980,24 @@ mod tests {
 
         let read = persist.read("db:edge", 0).unwrap();
         assert_eq!(read.len(), 2);
+    }
+
+    #[test]
+    fn test_flush_vectors_of_different_lengths() {
+        let (_temp, persist) = create_test_persist();
+        let v = |xs: Vec<f32>| Tuple::new(vec![Value::vector(xs)]);
+        let updates = vec![
+            Update::insert(v(vec![1.0]), 1),
+            Update::insert(v(vec![]), 2),
+            Update::insert(v(vec![1.0, 2.0, 3.0]), 3),
+        ];
+
+        persist.ensure_shard("db:emb").unwrap();
+        persist.append("db:emb", &updates).unwrap();
+        persist.flush("db:emb").unwrap();
+
+        let read = persist.read("db:emb", 0).unwrap();
+        assert_eq!(read, updates);
     }
 
     #[test]
